@@ -120,6 +120,43 @@ def conc_weight(vals, fn):
     return phonoc.tetrahedra_integration_weight(w, np.array(tet, order="C"), fn)
 
 
+def _num(x):
+    if isinstance(x, z3.ExprRef):
+        x = z3.simplify(x)
+        return float(x.as_fraction()) if z3.is_rational_value(x) else float(x.approx(20).as_fraction())
+    return float(x)
+
+
+def conc_case(ctx, i, v, w):
+    """n, g, J[0..3], I[0..3] of case i from the IR of the C source executed on concrete numbers (the IR is validated against the
+    compiled build by C13's sweep)"""
+    out = {"n": _num(callf(ctx.ir, "@_n", lambda p: [i, w, p], vs=v)[0]), "g": _num(callf(ctx.ir, "@_g", lambda p: [i, w, p], vs=v)[0])}
+    out["J"] = [_num(callf(ctx.ir, "@_J", lambda p: [i, c, w, p], vs=v)[0]) for c in range(4)]
+    out["I"] = [_num(callf(ctx.ir, "@_I", lambda p: [i, c, w, p], vs=v)[0]) for c in range(4)]
+    return out
+
+
+@symnp.outside_session
+def replay_formula(ctx, i, vals, pred, label):
+    v = [float(x) for x in vals[:4]]; w = float(vals[4])
+    o = conc_case(ctx, i, v, w)
+    bad = bool(pred(o))
+    return bad, "%s fails for the C case functions at vertex frequencies %s, omega = %g: n=%.6g g=%.6g J=%s I=%s" % (label, v, w, o["n"], o["g"], np.round(o["J"], 6).tolist(), np.round(o["I"], 6).tolist())
+
+
+@symnp.outside_session
+def replay_deriv(ctx, i, c, vals):
+    v = [float(x) for x in vals[:4]]; w = float(vals[4])
+    h = 1e-6 * max(1.0, abs(w))
+    o = conc_case(ctx, i, v, w); op = conc_case(ctx, i, v, w + h); om = conc_case(ctx, i, v, w - h)
+    if c is None:
+        num = (op["n"] - om["n"]) / (2 * h); ana = o["g"]; what = "dn/dw"
+    else:
+        num = (op["J"][c] * op["n"] - om["J"][c] * om["n"]) / (2 * h); ana = o["I"][c] * o["g"]; what = "d(J_%d n)/dw vs I_%d g" % (c, c)
+    d = abs(num - ana)
+    return d > 1e-5 * max(1.0, abs(ana)), "%s: numerical derivative %.8g, density %.8g at vertex frequencies %s, omega = %g (case %d)" % (what, num, ana, v, w, i)
+
+
 def formulas_unit(u, res):
     ctx = harness.setup()
     i = u[1]
@@ -136,14 +173,17 @@ def formulas_unit(u, res):
         wJ = conc_weight(vals, "J") * 6; wI = conc_weight(vals, "I") * 6
         bad = not (-1e-12 <= wJ <= 1 + 1e-12) or wI < -1e-12
         return bad, "compiled J*n*... = %r, I*g = %r at v=%s w=%s" % (wJ, wI, vals[:4], vals[4])
-    q(res, u, "0<=n<=1", pre, z3.Or(n < 0, n > 1), replay=rp_range)
-    q(res, u, "g>=0", pre, g < 0, replay=rp_range)
+    def rp(pred, label):
+        return lambda vals: replay_formula(ctx, i, vals, pred, label)
+    e = 1e-9
+    q(res, u, "0<=n<=1", pre, z3.Or(n < 0, n > 1), replay=rp(lambda o: not (-e <= o["n"] <= 1 + e), "0<=n<=1"))
+    q(res, u, "g>=0", pre, g < 0, replay=rp(lambda o: o["g"] < -e, "g>=0"))
     if i in (1, 2, 3):
-        q(res, u, "sum_c J == 1", pre, z3.Sum(J) != 1, replay=rp_range)
-        q(res, u, "sum_c I == 1", pre, z3.Sum(I) != 1, replay=rp_range)
+        q(res, u, "sum_c J == 1", pre, z3.Sum(J) != 1, replay=rp(lambda o: abs(sum(o["J"]) - 1) > e, "sum_c J == 1"))
+        q(res, u, "sum_c I == 1", pre, z3.Sum(I) != 1, replay=rp(lambda o: abs(sum(o["I"]) - 1) > e, "sum_c I == 1"))
     for c in range(4):
-        q(res, u, "0<=J_%d<=1" % c, pre, z3.Or(J[c] < 0, J[c] > 1), replay=rp_range)
-        q(res, u, "0<=I_%d<=1" % c, pre, z3.Or(I[c] < 0, I[c] > 1), replay=rp_range)
+        q(res, u, "0<=J_%d<=1" % c, pre, z3.Or(J[c] < 0, J[c] > 1), replay=rp(lambda o, c=c: not (-e <= o["J"][c] <= 1 + e), "0<=J_%d<=1" % c))
+        q(res, u, "0<=I_%d<=1" % c, pre, z3.Or(I[c] < 0, I[c] > 1), replay=rp(lambda o, c=c: not (-e <= o["I"][c] <= 1 + e), "0<=I_%d<=1" % c))
     if i in (1, 2, 3):
         A_, B_ = z3.Real("a"), z3.Real("b")
         lo = {1: V[0], 2: V[1], 3: V[2]}[i]; hi = {1: V[1], 2: V[2], 3: V[3]}[i]
@@ -171,10 +211,10 @@ def deriv_unit(u, res):
     i = u[1]
     pre = ORDER + POS[i]
     n, _ = callf(ctx.ir, "@_n", lambda p: [i, W, p]); g, _ = callf(ctx.ir, "@_g", lambda p: [i, W, p])
-    q(res, u, "dn/dw == g", pre, diff(n, W) != g, to=60000)
+    q(res, u, "dn/dw == g", pre, diff(n, W) != g, to=60000, replay=lambda vals: replay_deriv(ctx, i, None, vals))
     for c in range(4):
         J, _ = callf(ctx.ir, "@_J", lambda p: [i, c, W, p]); I, _ = callf(ctx.ir, "@_I", lambda p: [i, c, W, p])
-        q(res, u, "d(J_%d n)/dw == I_%d g" % (c, c), pre, diff(J * n, W) != I * g, to=(60000 if i != 2 else 45000))
+        q(res, u, "d(J_%d n)/dw == I_%d g" % (c, c), pre, diff(J * n, W) != I * g, to=(60000 if i != 2 else 45000), replay=lambda vals, c=c: replay_deriv(ctx, i, c, vals))
     res.twins.append({"name": "derivative twin", "verdict": solve(res, "twin", pre + [diff(n, W) != 2 * g], record=False)[0]})
     res.samples.append({"unit": res.unit, "assertion": "d/dw [J_c(w) n(w)] == I_c(w) g(w) with the derivative taken on the executed IR expression"})
     return res
@@ -192,15 +232,32 @@ def c_vs_py_unit(u, res):
             for fn, pyf in (("@_n", tm._n), ("@_g", tm._g)):
                 c_, m = callf(ctx.ir, fn, lambda p: [i, W, p]); res.add_functions(m.called)
                 p_ = harness.to_term(pyf(i))
-                q(res, u, "C %s == Python, case %d" % (fn[1:], i), pre, c_ != p_)
+                q(res, u, "C %s == Python, case %d" % (fn[1:], i), pre, c_ != p_, replay=lambda vals, fn=fn, i=i: replay_c_vs_py(ctx, fn, i, None, vals))
             for fn, pyf in (("@_J", tm._J), ("@_I", tm._I)):
                 for c in range(4):
                     c_, m = callf(ctx.ir, fn, lambda p: [i, c, W, p])
                     p_ = harness.to_term(pyf(i, c))
-                    q(res, u, "C %s_%d == Python, case %d" % (fn[1:], c, i), pre, c_ != p_)
+                    q(res, u, "C %s_%d == Python, case %d" % (fn[1:], c, i), pre, c_ != p_, replay=lambda vals, fn=fn, i=i, c=c: replay_c_vs_py(ctx, fn, i, c, vals))
     res.twins.append({"name": "c_vs_py twin", "verdict": "sat"})
     res.samples.append({"unit": res.unit, "assertion": "IR of _J(i,c,w,v) == TetrahedronMethod._J(i,c) on the same symbols, all 5x4 cases"})
     return res
+
+
+@symnp.outside_session
+def replay_c_vs_py(ctx, fn, i, c, vals):
+    """the case function of the C source (its IR executed on the concrete numbers; the IR is validated against the compiled build
+    by C13's sweep) against the Python method of TetrahedronMethod on the same numbers"""
+    from phonopy.structure.tetrahedron_method import TetrahedronMethod
+    v = [float(x) for x in vals[:4]]; w = float(vals[4])
+    args = (lambda p: [i, w, p]) if c is None else (lambda p: [i, c, w, p])
+    cval, _ = callf(ctx.ir, fn, args, vs=v)
+    cval = _num(cval)
+    tm = TetrahedronMethod.__new__(TetrahedronMethod)
+    tm._vertices_omegas = v; tm._omega = w
+    pyf = {"@_n": tm._n, "@_g": tm._g, "@_J": tm._J, "@_I": tm._I}[fn]
+    pval = float(pyf(i) if c is None else pyf(i, c))
+    d = abs(cval - pval)
+    return d > 1e-9 * max(1.0, abs(pval)), "C %s(case %d%s) = %.12g but TetrahedronMethod.%s = %.12g for vertex frequencies %s, omega = %g" % (fn[1:], i, "" if c is None else ", vertex %d" % c, cval, fn[1:], pval, v, w)
 
 
 def weight_unit(u, res):
